@@ -136,6 +136,39 @@ def install_backup_env(ctx, eng):
     front(r"^<Cow<'_, str> as ToString>::to_string$", lambda e, st, c, a, d: Outcome(deref_ref(e, st, deref_ref(e, st, a[0]).fields[0])))
     S(r"^core::str::<impl str>::starts_with::<&str>$", lambda e, st, c, a, d: Outcome(BoolV(v_prefix(sterm(e, st, a[1]), sterm(e, st, a[0])))))
 
+    def s_strip_prefix(eng, st, callee, args, dty):
+        sv = sterm(eng, st, args[0])
+        pat = args[1]
+        if isinstance(pat, IntV):          # char pattern
+            cond = z3.And(sv.len >= 1, sv.at(0) == pat.t)
+            rest = sv.sub(1, sv.len - 1)
+        else:
+            pv = sterm(eng, st, pat)
+            cond = v_prefix(pv, sv)
+            rest = sv.sub(pv.len, sv.len - pv.len)
+        src = deref_ref(eng, st, args[0])
+        r = SStrV(rest, src.attrs.get("utf8") if isinstance(src, OpaqueV) else None)
+        return [Outcome(some(RefV(Cell(r))), [cond]), Outcome(none(), [z3.Not(cond)])]
+    S(r"^core::str::<impl str>::strip_prefix::<", s_strip_prefix)
+
+    def s_strip_suffix(eng, st, callee, args, dty):
+        sv = sterm(eng, st, args[0])
+        pat = args[1]
+        if isinstance(pat, IntV):
+            cond = z3.And(sv.len >= 1, sv.at(sv.len - 1) == pat.t)
+            rest = sv.sub(0, sv.len - 1)
+        else:
+            pv = sterm(eng, st, pat)
+            tail = sv.sub(sv.len - pv.len, pv.len)
+            cond = z3.And(pv.len <= sv.len, v_eq(pv, tail))
+            rest = sv.sub(0, sv.len - pv.len)
+        return [Outcome(some(RefV(Cell(SStrV(rest)))), [cond]), Outcome(none(), [z3.Not(cond)])]
+    S(r"^core::str::<impl str>::strip_suffix::<", s_strip_suffix)
+    S(r"^core::str::<impl str>::ends_with::<&str>$", lambda e, st, c, a, d: Outcome(BoolV(z3.And(sterm(e, st, a[1]).len <= sterm(e, st, a[0]).len,
+        v_eq(sterm(e, st, a[1]), sterm(e, st, a[0]).sub(sterm(e, st, a[0]).len - sterm(e, st, a[1]).len, sterm(e, st, a[1]).len))))))
+    S(r"^core::str::<impl str>::len$", lambda e, st, c, a, d: Outcome(IntV(sterm(e, st, a[0]).len, "usize")))
+    S(r"^<str as PartialEq>::eq$|^<&str as PartialEq>::eq$", lambda e, st, c, a, d: Outcome(BoolV(v_eq(sterm(e, st, a[0]), sterm(e, st, a[1])))))
+
     def s_extension(eng, st, callee, args, dty):
         p = deref_ref(eng, st, args[0])
         nm = p.attrs["name"]
